@@ -195,7 +195,7 @@ class Record:
                 v = field_type(v)
         super().__setattr__(k, v)
 
-    def _replace(self, **kwds):
+    def _replace(self, /, **kwds):
         result = self.__class__(*map(kwds.pop, self.__slots__, (getattr(self, k) for k in self.__slots__)))
         if kwds:
             raise ValueError("Got unexpected field names: {kwds!r}".format(kwds=list(kwds)))
@@ -317,7 +317,7 @@ class GroupedRecord(Record):
     def __hash__(self) -> int:
         return hash((self.name, tuple(hash(record) for record in self.records)))
 
-    def _replace(self, **kwds):
+    def _replace(self, /, **kwds):
         new_records = []
         for record in self.records:
             new_records.append(
@@ -599,7 +599,7 @@ class RecordDescriptor:
 
         return RecordFieldSet(field for field in self.fields.values() if field.typename == name)
 
-    def __call__(self, *args, **kwargs) -> Record:
+    def __call__(self, /, *args, **kwargs) -> Record:
         """Create a new Record initialized with ``args`` and ``kwargs``."""
         return self.recordType(*args, **kwargs)
 
